@@ -7,6 +7,7 @@ any packet bytes.  The model is instantiated with the regenerated facts (`genIni
 -/
 import IpcHub.Lemmas.Media5
 import IpcHub.Lemmas.MediaCache
+import IpcHub.Lemmas.Media6
 import IpcHub.Model.MediaInst
 namespace IpcHub.Props.C01
 open IpcHub.Media
@@ -67,6 +68,39 @@ theorem c01_complete_when_not_dropping (hevc gop : Bool) (ls : List Label) :
       c.sent = s.published.drop c.joinedAt := by
   intro s c hc
   exact ((ginv_run _ _ ls (ginv_init genConsts IpcHub.Gen.maxQLen hevc gop)).cinv c hc).sent_all
+
+/-- Completeness outside the drop episodes ("while nothing is being dropped for backlog it receives
+    all of them", for a consumer that HAS dropped before): in every execution, for every consumer,
+    `send` made one logged decision for EVERY packet published since it attached, in published order
+    (all of them while it is attached, a prefix of them once it is detached); what it was sent is
+    exactly the packets whose decision was "kept"; so a packet published while the consumer was
+    attached is missing from what it is sent only if the decision taken for that very packet was
+    "dropped" — and by c04_gop_aligned those decisions form runs that begin and end at key-frame
+    starts.  In particular everything published after the end of a drop episode is sent again. -/
+theorem c01_complete_outside_drop_episodes (hevc gop : Bool) (ls : List Label) :
+    let s := (genInit hevc gop).run ls
+    ∀ c ∈ s.cons,
+      c.sendLog.map (·.1) <+: s.published.drop c.joinedAt ∧
+      (c.registered = true → c.sendLog.map (·.1) = s.published.drop c.joinedAt) ∧
+      c.sent = (c.sendLog.filter (fun e => e.2.2)).map (·.1) := by
+  intro s c hc
+  have h := linv_run (genInit hevc gop) ls (by intro c hc; simp [genInit, St.init] at hc) c hc
+  exact ⟨h.ld, h.lp, h.ls⟩
+
+/-- non-vacuity: a consumer with limit 2 that dropped a GOP and resumed at the next key frame: its
+    log has an entry per published packet, the kept ones are what it was sent, and the packets
+    after the episode are all there -/
+example :
+    let key : Pkt := { uid := 0, ch := 0, payload := [0x65, 1, 2, 3] }
+    let non : Pkt := { uid := 0, ch := 0, payload := [0x61, 1, 2, 3] }
+    let s := (St.init genConsts 2 false false).run
+      [.join 0 false 0, .stall 0, .pub { key with uid := 1 }, .pub { non with uid := 2 }, .pub { non with uid := 3 },
+       .pub { non with uid := 4 }, .pub { key with uid := 5 }, .pub { non with uid := 6 },
+       .resume 0, .cstep 0, .cstep 0, .cstep 0, .cstep 0, .cstep 0, .cstep 0, .cstep 0, .cstep 0,
+       .pub { key with uid := 7 }, .pub { non with uid := 8 }]
+    s.cons.map (fun c => (c.sendLog.map (fun e => (e.1.uid, e.2.2)), c.sent.map (·.uid))) =
+      [([(1, true), (2, true), (3, true), (4, true), (5, false), (6, false), (7, true), (8, true)], [1, 2, 3, 4, 7, 8])] := by
+  decide
 
 /-- At most once: if the publisher never publishes the same packet object twice, no consumer
     receives a packet twice — neither within the live part, nor between the cache replay and
